@@ -358,12 +358,12 @@ Proof.
   - destruct Hp as [_ Hh]. apply Hh, Hk.
 Qed.
 
-Theorem exclusion ls s t1 t2 r1 r2 k :
-  run init ls = Some s -> t1 <> t2 ->
+Lemma exclusion_inv s t1 t2 r1 r2 k :
+  Inv s -> t1 <> t2 ->
   reqs s t1 = Some r1 -> reqs s t2 = Some r2 -> has_key r1 k -> has_key r2 k ->
   rwrite r1 = false /\ rwrite r2 = false.
 Proof.
-  intros Hrun Hne H1 H2 K1 K2. pose proof (reachable_inv ls s Hrun) as HI.
+  intros HI Hne H1 H2 K1 K2.
   pose proof (has_key_holds s t1 r1 k HI H1 K1) as A. pose proof (has_key_holds s t2 r2 k HI H2 K2) as B.
   destruct HI as [HL _]. unfold holds in *.
   destruct (rwrite r1), (rwrite r2); auto; exfalso.
@@ -371,6 +371,11 @@ Proof.
   - destruct (HL k t1 A) as [E _]. rewrite E in B. exact B.
   - destruct (HL k t2 B) as [E _]. rewrite E in A. exact A.
 Qed.
+Theorem exclusion ls s t1 t2 r1 r2 k :
+  run init ls = Some s -> t1 <> t2 ->
+  reqs s t1 = Some r1 -> reqs s t2 = Some r2 -> has_key r1 k -> has_key r2 k ->
+  rwrite r1 = false /\ rwrite r2 = false.
+Proof. intros Hrun. apply exclusion_inv, (reachable_inv ls s Hrun). Qed.
 
 (* a caller that has returned holds every key it asked for *)
 Corollary returned_holds_all ls s t r k :
